@@ -18,31 +18,32 @@ CONSTANTS StrLen, SeqLen, PairLen, Generic, Deeps
 Chars == {Q, D, N, "x", "y"}
 Paths == {<<>>, <<"x">>, <<"y">>, <<"x", D, "y">>, <<"x", D, D>>}
 Fns == {<<"x">>, <<"y">>}
-Prefixes == {<<"x">>, <<"x", D, "y">>}
+Prefixes == {<<>>, <<"x">>, <<"x", D, "y">>}      \* the counter's own name: empty, plain, dotted
 Insts == IF Generic THEN {1, 2} ELSE {0}
 FrameSet == {[path |-> p, fn |-> f, inst |-> IF p = <<"x", D, D>> THEN i ELSE 0] : p \in Paths, f \in Fns, i \in Insts}
 SeqsUpTo(S, n) == UNION {[1..k -> S] : k \in 0..n}
 
-VARIABLES mode, s, dec, prefix, frs, frs2, enc, unc, alts
-vars == <<mode, s, dec, prefix, frs, frs2, enc, unc, alts>>
+VARIABLES mode, s, dec, prefix, frs, frs2, enc, unc, alts,
+          depth      \* mode single: how many frames the stack counter records (0 elsewhere)
+vars == <<mode, s, dec, prefix, frs, frs2, enc, unc, alts, depth>>
 
 None == <<>>
 InitDec == /\ mode = "dec"
            /\ s \in SeqsUpTo(Chars, StrLen)
            /\ dec = ToStr(Decode(s))
-           /\ prefix = None /\ frs = None /\ frs2 = None /\ enc = "" /\ unc = "" /\ alts = {}
+           /\ prefix = None /\ frs = None /\ frs2 = None /\ enc = "" /\ unc = "" /\ alts = {} /\ depth = 0
 InitEnc == /\ mode = "enc"
            /\ prefix \in Prefixes
            /\ frs \in SeqsUpTo(FrameSet, SeqLen) \ {<<>>}
            /\ enc = ToStr(EncodeT(prefix, frs))
            /\ unc = ToStr(Uncompressed(prefix, frs))
            /\ alts = {ToStr(EncodeWith(prefix, frs, ds)) : ds \in SUBSET Dittoable(frs)}
-           /\ s = None /\ dec = "" /\ frs2 = None
+           /\ s = None /\ dec = "" /\ frs2 = None /\ depth = 0
 InitPair == /\ mode = "pair"
             /\ prefix \in Prefixes
             /\ frs \in SeqsUpTo(FrameSet, PairLen) \ {<<>>}
             /\ frs2 \in SeqsUpTo(FrameSet, PairLen) \ {<<>>}
-            /\ enc = "" /\ unc = "" /\ alts = {} /\ s = None /\ dec = ""
+            /\ enc = "" /\ unc = "" /\ alts = {} /\ s = None /\ dec = "" /\ depth = 0
 BaseFrame == [path |-> <<"x">>, fn |-> <<"x">>, inst |-> 0]
 OtherFrames == {[path |-> <<"x">>, fn |-> <<"y">>, inst |-> 0], [path |-> <<"y">>, fn |-> <<"x">>, inst |-> 0]}
 InitSingle == /\ mode = "single"
@@ -51,6 +52,9 @@ InitSingle == /\ mode = "single"
                     /\ k <= n
                     /\ frs = [i \in 1..n |-> BaseFrame]
                     /\ frs2 = [i \in 1..n |-> IF i = k THEN o ELSE BaseFrame]
+                    \* the counter records the innermost `depth` frames: none, just short of
+                    \* the difference, just reaching it, the whole stack, more than there is
+                    /\ depth \in {0, k - 1, k, n, n + 3}
               /\ enc = "" /\ unc = "" /\ alts = {} /\ s = None /\ dec = ""
 Next == UNCHANGED vars
 
@@ -89,6 +93,13 @@ InjectiveStacks == mode = "pair" =>
         => EncodeT(prefix, frs) # EncodeT(prefix, frs2))
 
 (* ---- one differing frame at any depth (mode single; MaxLen large) ------- *)
+Recorded(f, d) == IF d >= Len(f) THEN f ELSE SubSeq(f, 1, d)
+(* the two stacks are one stack for the counter exactly when the difference   *)
+(* lies below what it records; then, and only then, the names coincide        *)
+DepthDecides == mode = "single" =>
+    LET a == Recorded(frs, depth)  b == Recorded(frs2, depth) IN
+    /\ (a = b) = (\A i \in 1..Len(frs) : frs[i] # frs2[i] => i > depth)
+    /\ (EncodeT(prefix, a) = EncodeT(prefix, b)) = (a = b)
 SingleDiffers == mode = "single" =>
     LET e1 == EncodeT(prefix, frs)  e2 == EncodeT(prefix, frs2)
         d == {i \in 1..Len(frs) : frs[i] # frs2[i]} IN
